@@ -95,6 +95,15 @@ theorem mem_filterFields {c : RenderCfg} {fs : Fields} {keys : List String} {k :
   · rename_i h
     simp [h]
 
+theorem useActual_iff (c : RenderCfg) : c.useActual = true ↔ c.fw = .pydantic ∨ c.fw = .sqlmodel := by
+  unfold RenderCfg.useActual
+  cases h : c.fw <;> decide
+
+theorem useActual_false {c : RenderCfg} (h : c.fw = .base ∨ c.fw = .attrs ∨ c.fw = .dataclasses) :
+    c.useActual = false := by
+  unfold RenderCfg.useActual
+  rcases h with h | h | h <;> rw [h] <;> rfl
+
 /-- every framework other than pydantic / sqlmodel keeps all fields -/
 theorem filterFields_other {c : RenderCfg} (h : c.useActual = false) (fs : Fields) (keys : List String) :
     filterFields c fs keys = keys := by
